@@ -57,13 +57,13 @@ pub enum Weighting { AsTransaction, AsLimitedTransaction(u64), AsBlock, NoLimit 
 // ghost views of a transaction: its kernels and the numbers of inputs / outputs, its total fee
 // (the views below depend on the transaction body only, not on the kernel offset)
 pub uninterp spec fn body_kernels(b: u64) -> Seq<TxKernelFull>;
-pub open spec fn tx_kernels(t: Transaction) -> Seq<TxKernelFull> { body_kernels(t.t) }
+pub open spec fn tx_kernels(t: Transaction) -> Seq<TxKernelFull> { body_kernels(t.body.t) }
 pub uninterp spec fn body_num_inputs(b: u64) -> nat;
-pub open spec fn tx_num_inputs(t: Transaction) -> nat { body_num_inputs(t.t) }
+pub open spec fn tx_num_inputs(t: Transaction) -> nat { body_num_inputs(t.body.t) }
 pub uninterp spec fn body_num_outputs(b: u64) -> nat;
-pub open spec fn tx_num_outputs(t: Transaction) -> nat { body_num_outputs(t.t) }
+pub open spec fn tx_num_outputs(t: Transaction) -> nat { body_num_outputs(t.body.t) }
 pub uninterp spec fn body_fee_total(b: u64) -> u64;
-pub open spec fn tx_fee_total(t: Transaction) -> u64 { body_fee_total(t.t) }
+pub open spec fn tx_fee_total(t: Transaction) -> u64 { body_fee_total(t.body.t) }
 pub uninterp spec fn kernel_verifies(k: TxKernelFull) -> bool;         // kernel signature valid for its excess and message
 pub uninterp spec fn tx_valid(t: Transaction) -> bool;                 // Transaction::validate(Weighting::AsTransaction)
 pub uninterp spec fn spec_kernels_fee(k: Seq<TxKernelFull>) -> u64;
@@ -79,9 +79,9 @@ impl Transaction {
     #[verifier::external_body]
     pub fn kernels(&self) -> (r: &[TxKernelFull]) ensures r@ == tx_kernels(*self) { unimplemented!() }
     #[verifier::external_body]
-    pub fn inputs(&self) -> (r: TxIo) ensures r.n == tx_num_inputs(*self) { unimplemented!() }
+    pub fn inputs(&self) -> (r: Inputs) ensures r.spec_len() == tx_num_inputs(*self), inputs_view(r) == body_inputs(self.body) { unimplemented!() }
     #[verifier::external_body]
-    pub fn outputs(&self) -> (r: TxIo) ensures r.n == tx_num_outputs(*self) { unimplemented!() }
+    pub fn outputs(&self) -> (r: &[Output]) ensures r@.len() == tx_num_outputs(*self), r@ == body_outputs(self.body) { unimplemented!() }
     #[verifier::external_body]
     pub fn fee(&self) -> (r: u64) ensures r == tx_fee_total(*self) { unimplemented!() }
     #[verifier::external_body]
@@ -90,10 +90,56 @@ impl Transaction {
             tx_num_outputs(r) == tx_num_outputs(self), tx_parts(r) == tx_parts(self), tx_fee_total(r) == spec_kernels_fee(seq![k]), r.offset == self.offset
     { unimplemented!() }
     #[verifier::external_body]
+    pub fn with_kernel(self, k: TxKernelFull) -> (r: Transaction)
+        ensures tx_kernels(r) == tx_kernels(self).push(k), body_inputs(r.body) == body_inputs(self.body), body_outputs(r.body) == body_outputs(self.body), r.offset == self.offset
+    { unimplemented!() }
+    #[verifier::external_body]
     pub fn validate(&self, w: Weighting) -> (r: Result<(), transaction::Error>) ensures (r is Ok) == tx_valid(*self) { unimplemented!() }
 }
-pub struct TxIo { pub n: usize }
-impl TxIo { pub fn len(&self) -> (r: usize) ensures r == self.n { self.n } }
+// inputs / outputs of a transaction body (grin_core::core::transaction): `Inputs` is either the current
+// features-and-commit list or the legacy commit-only list
+pub struct Input { pub features: OutputFeatures, pub commit: Commitment }
+impl Clone for Input { #[verifier::external_body] fn clone(&self) -> (r: Self) ensures r == *self { unimplemented!() } }
+impl Copy for Input {}
+impl Input { pub fn commitment(&self) -> (r: Commitment) ensures r == self.commit { self.commit } }
+pub struct CommitWrapper { pub commit: Commitment }
+impl Clone for Output { #[verifier::external_body] fn clone(&self) -> (r: Self) ensures r == *self { unimplemented!() } }
+impl Copy for Output {}
+impl Output {
+    pub fn new(features: OutputFeatures, commit: Commitment, prf: RangeProof) -> (r: Output) ensures r == (Output { features, commit, prf }) { Output { features, commit, prf } }
+    pub fn features(&self) -> (r: OutputFeatures) ensures r == self.features { self.features }
+    pub fn commitment(&self) -> (r: Commitment) ensures r == self.commit { self.commit }
+    pub fn proof(&self) -> (r: RangeProof) ensures r == self.prf { self.prf }
+}
+pub enum Inputs { CommitOnly(Vec<CommitWrapper>), FeaturesAndCommit(Vec<Input>) }
+// None: commit-only
+pub open spec fn inputs_view(i: Inputs) -> Option<Seq<Input>> { match i { Inputs::FeaturesAndCommit(v) => Some(v@), Inputs::CommitOnly(_) => None } }
+impl Inputs {
+    pub open spec fn spec_len(&self) -> nat { match self { Inputs::FeaturesAndCommit(v) => v@.len(), Inputs::CommitOnly(v) => v@.len() } }
+    pub fn len(&self) -> (r: usize) ensures r == self.spec_len() { match self { Inputs::FeaturesAndCommit(v) => v.len(), Inputs::CommitOnly(v) => v.len() } }
+}
+pub uninterp spec fn body_inputs(b: TransactionBody) -> Option<Seq<Input>>;
+pub uninterp spec fn body_outputs(b: TransactionBody) -> Seq<Output>;
+pub uninterp spec fn spec_inputs_from(s: Seq<Input>) -> Inputs;
+#[verifier::external_body]
+pub proof fn axiom_inputs_from(s: Seq<Input>) ensures inputs_view(spec_inputs_from(s)) == Some(s) { }
+impl vstd::std_specs::convert::FromSpecImpl<&[Input]> for Inputs {
+    open spec fn obeys_from_spec() -> bool { true }
+    open spec fn from_spec(v: &[Input]) -> Self { spec_inputs_from(v@) }
+}
+impl From<&[Input]> for Inputs {
+    #[verifier::external_body]
+    fn from(v: &[Input]) -> (r: Inputs) ensures r == spec_inputs_from(v@) { unimplemented!() }
+}
+impl TransactionBody {
+    // replace_inputs / replace_outputs change only the named list
+    #[verifier::external_body]
+    pub fn replace_inputs(self, inputs: Inputs) -> (r: TransactionBody)
+        ensures body_inputs(r) == inputs_view(inputs), body_outputs(r) == body_outputs(self), body_kernels(r.t) == body_kernels(self.t) { unimplemented!() }
+    #[verifier::external_body]
+    pub fn replace_outputs(self, outputs: &[Output]) -> (r: TransactionBody)
+        ensures body_outputs(r) == outputs@, body_inputs(r) == body_inputs(self), body_kernels(r.t) == body_kernels(self.t) { unimplemented!() }
+}
 impl TxKernelFull {
     #[verifier::external_body]
     pub fn verify(&self) -> (r: Result<(), transaction::Error>) ensures (r is Ok) == kernel_verifies(*self) { unimplemented!() }
